@@ -36,7 +36,7 @@ def main():
     src, name = sys.argv[1], sys.argv[2]
     if not os.path.isdir(WT):
         subprocess.check_call(["git", "-C", "/repo", "worktree", "add", "-q", "--detach", WT, "HEAD"])
-    sh("git checkout -q --detach $(git -C /repo rev-parse HEAD) && git checkout -q -- . && git clean -fdq -e target")
+    sh("git reset -q --hard && git checkout -q --detach $(git -C /repo rev-parse HEAD) && git reset -q --hard && git clean -fdq -e target")
     base_file = "/tmp/sconf_baseline_%s.txt" % subprocess.check_output(["git", "-C", "/repo", "rev-parse", "--short", "HEAD"], text=True).strip()
     if not os.path.exists(base_file):
         open(base_file, "w").write("\n".join(suite()))
@@ -56,22 +56,22 @@ def main():
     res = {"name": name, "property": meta["property"]}
     rc, out = sh(demo_cmd)
     res["demo_without_change"] = {"exit": rc, "tail": out[-600:]}
-    sh("git checkout -q -- . && git clean -fdq -e target")
+    sh("git reset -q --hard && git clean -fdq -e target")
     pf = os.path.join(os.path.abspath(src), "patch.diff")
-    rc_a, out_a = sh("git apply %s || git apply --3way %s || patch -p1 --fuzz=3 < %s" % (pf, pf, pf))
+    rc_a, out_a = sh("git apply %s || patch -p1 --fuzz=3 < %s" % (pf, pf))
     res["patch_applies"] = rc_a == 0
-    rc_d, cur_diff = sh("git diff -- . ':!*/tests/*'")
+    rc_d, cur_diff = sh("git diff HEAD -- . ':!*/tests/*'")
     rc2, out2 = sh(demo_cmd)
     res["demo_with_change"] = {"exit": rc2, "tail": out2[-900:]}
     demo_failed_as_test = rc2 != 0 and ("test result: FAILED" in out2 or "panicked at" in out2)
-    sh("git checkout -q -- . && git clean -fdq -e target")
-    sh("git apply %s || git apply --3way %s || patch -p1 --fuzz=3 < %s" % (pf, pf, pf))
+    sh("git reset -q --hard && git clean -fdq -e target")
+    sh("git apply %s || patch -p1 --fuzz=3 < %s" % (pf, pf))
     st = suite()
     res["suite_with_change"] = {"passed": sum(1 for l in st if l.endswith(" ok")), "failed": sum(1 for l in st if "FAILED" in l),
                                 "same_as_unchanged": st == baseline,
                                 "diff": [l for l in st if l not in baseline][:10] + ["MISSING " + l for l in baseline if l not in st][:10]}
     res["baseline"] = {"passed": sum(1 for l in baseline if l.endswith(" ok")), "failed": sum(1 for l in baseline if "FAILED" in l)}
-    sh("git checkout -q -- . && git clean -fdq -e target")
+    sh("git reset -q --hard && git clean -fdq -e target")
     ok = rc == 0 and rc_a == 0 and demo_failed_as_test and res["suite_with_change"]["same_as_unchanged"]
     res["confirmed"] = ok
     dst = os.path.join(VERIF, "seeded", name)
